@@ -203,6 +203,7 @@ pub struct HEnt {
 
 pub const EH0: (&str, &str) = ("content-type", "text/plain");
 pub const EH1: (&str, &str) = ("content-language", "en");
+pub const EH2: (&str, &str) = ("content-language", "de");
 
 impl Entity for HEnt {
     type Error = HErr;
@@ -246,6 +247,10 @@ impl Entity for HEnt {
         }
         if self.nhdr >= 2 {
             h.insert(header::CONTENT_LANGUAGE, HeaderValue::from_static(EH1.1));
+        }
+        if self.nhdr >= 3 {
+            // a repeated header field: entities may supply several values for one name
+            h.append(header::CONTENT_LANGUAGE, HeaderValue::from_static(EH2.1));
         }
     }
     fn etag(&self) -> Option<HeaderValue> {
@@ -445,13 +450,20 @@ pub const S_N: usize = 11;
 pub struct Snap<'a> {
     pub count: [u8; S_N],
     pub val: [Option<&'a [u8]>; S_N],
+    /// second Content-Language value (entities with a repeated header field)
+    pub lang2: Option<&'a [u8]>,
     pub others: u8,
     pub total: u8,
 }
 
 pub fn snap(h: &HeaderMap) -> Snap<'_> {
     // the model map stores each name in its own slot: every lookup is a constant-index access
-    let mut s = Snap { count: [0; S_N], val: [None; S_N], others: 0, total: h.len() as u8 };
+    let mut s = Snap { count: [0; S_N], val: [None; S_N], lang2: None, others: 0, total: h.len() as u8 };
+    {
+        let mut it = h.get_all(header::CONTENT_LANGUAGE).iter();
+        let _ = it.next();
+        s.lang2 = it.next().map(|v| v.as_bytes());
+    }
     macro_rules! take {
         ($i:expr, $name:expr) => {
             s.count[$i] = h.model_count($name) as u8;
